@@ -221,6 +221,22 @@ static void judge(vf::Case& c, const std::string& part, const Mat& M, int cA, in
         return;
       }
     }
+    // norm-wise backward error in terms of A itself ("proportional to machine epsilon, the size and the conditioning"): Wilkinson's bound for
+    // Gaussian elimination with partial pivoting, (A + dA) x^ = b with |dA|_inf <= n^2 gamma_3n rho_n |A|_inf and growth factor rho_n <= 2^(n-1)
+    // (Higham, Thm 9.5 and Lemma 9.6). The component-wise bound above is relative to the computed |L||U| and holds for ANY pivot choice; this
+    // one does not: a pivot search that misses the largest entry lets the multipliers, hence |L||U|, grow without bound relative to |A|.
+    {
+      LD nA = 0; for (int i = 0; i < n; ++i) { LD r = 0; for (int l = 0; l < n; ++l) r += fabsl(F.PA[(size_t)i * n + l]); nA = std::max(nA, r); }
+      for (int j = 0; j < kk; ++j) {
+        LD nX = 0, res = 0; for (int l = 0; l < n; ++l) nX = std::max(nX, fabsl((LD)X((size_t)l, (size_t)j)));
+        for (int i = 0; i < n; ++i) { LD pb = Bm(F.piv[i], (size_t)j), s2 = 0; for (int l = 0; l < n; ++l) s2 += F.PA[(size_t)i * n + l] * (LD)X((size_t)l, (size_t)j); res = std::max(res, fabsl(pb - s2)); }
+        LD bound = (LD)n * n * gam(3 * n) * ldexpl(1.0L, n - 1) * nA * nX * (1 + gamL(n + 2)) + gamL(n + 2) * nA * nX;
+        if (!(res <= bound)) {
+          c.fail(part + "|" + what + "-normwise-backward-error", in() + " " + CLS[cB] + "/" + CLS[cX] + " k=" + str(kk) + " col " + str(j) + ": |B-A.X|_inf=" + vf::num((double)res) + " bound n^2.gamma_3n.2^(n-1).|A|.|x|=" + vf::num((double)bound) + " (largest |L| entry " + vf::num((double)[&] { double m = 0; for (double l : F.L) m = std::max(m, std::fabs(l)); return m; }()) + ")");
+          return;
+        }
+      }
+    }
   };
   {
     auto X = mk(cX, 1, 1); (*X)(0, 0) = 7;
@@ -293,6 +309,7 @@ static std::vector<LL> alpha(const std::string& spec) {   // simplest first
   if (spec == "01") return {0, 1};
   if (spec == "-1..1") return {0, 1, -1};
   if (spec == "-1..2") return {0, 1, -1, 2};
+  if (spec == "graded") return {0, 1, 2, 1048576};   // {0, 2^-20, 2^-19, 1} scaled by 2^20 (the factorisation is scale-invariant): columns in which a large entry is followed by small ones of different size
   int r = atoi(spec.c_str() + 1);   // "s<r>" = [-r, r]
   std::vector<LL> v{0}; for (int i = 1; i <= r; ++i) { v.push_back(i); v.push_back(-i); } return v;
 }
@@ -527,6 +544,7 @@ int main(int argc, char** argv) {
   cube(R, 3, "01");
   lattice(R, 3, th ? "s2" : "-1..2");
   lattice(R, 4, th ? "-1..1" : "01");
+  lattice(R, 3, "graded");
   // det(AB) = det(A) det(B)
   pairs(R, 2, th ? "s3" : "s2", 0);
   pairs(R, 3, "01", 0);
